@@ -32,7 +32,9 @@ func vCheckDecoded(in []byte, db SignatureDatabase) {
 		// offsets are case-split (the decoder's own positions are concrete on each path)
 		l.ListSize = uint32(vsym.Concrete(int(l.ListSize), 1<<16))
 		l.HeaderSize = uint32(vsym.Concrete(int(l.HeaderSize), 1<<16))
-		l.Size = uint32(vsym.Concrete(int(l.Size), 1<<16))
+		if len(l.Signatures) > 0 {
+			l.Size = uint32(vsym.Concrete(int(l.Size), 1<<16))
+		}
 		vsym.Assert(l.SignatureType == vGUIDAt(in, off), "SignatureType equals the input field")
 		vsym.Assert(l.ListSize == vU32(in, off+16), "ListSize equals the input field")
 		vsym.Assert(l.HeaderSize == vU32(in, off+20), "HeaderSize equals the input field")
